@@ -45,6 +45,7 @@ import (
 	"os"
 	"path/filepath"
 	"regexp"
+	"sort"
 	"strings"
 )
 
@@ -466,6 +467,76 @@ func wrapperRows(fd *ast.FuncDecl) (out []string) {
 	return
 }
 
+// collectRows: CollectWithContext (observable.go) as a sequence of recognised actions. The model of
+// Collect (lean/RoModel/CutIn.lean `collect`) is "the values the observer gathered, the terminal's
+// error and context, returned when Wait returns": that is what these rows say; anything else is unknown.
+func collectRows(fd *ast.FuncDecl) (out []string) {
+	if fd == nil || fd.Body == nil || len(kParamNames(fd.Type)) != 2 {
+		return []string{"unknown:0"}
+	}
+	ps := kParamNames(fd.Type) // ctx, obs
+	vals, lctx, errv, sub := "", "", "", ""
+	unk := func(s ast.Stmt) { out = append(out, fmt.Sprintf("unknown:%d", line(s.Pos()))) }
+	body := func(f ast.Expr) (params []string, stmts []string, ok bool) {
+		fl, ok := f.(*ast.FuncLit)
+		if !ok {
+			return nil, nil, false
+		}
+		for _, s := range strip(fl.Body.List) {
+			stmts = append(stmts, ksrc(s))
+		}
+		sort.Strings(stmts)
+		return kParamNames(fl.Type), stmts, true
+	}
+	for _, s := range strip(fd.Body.List) {
+		txt := ksrc(s)
+		if m := match("@ := []T{}", txt); m != nil && vals == "" {
+			vals = m[0]
+			out = append(out, "values := empty")
+			continue
+		}
+		if m := match("var @ context.Context", txt); m != nil && lctx == "" {
+			lctx = m[0]
+			out = append(out, "var lastCtx")
+			continue
+		}
+		if m := match("var @ error", txt); m != nil && errv == "" {
+			errv = m[0]
+			out = append(out, "var err")
+			continue
+		}
+		if a, ok := s.(*ast.AssignStmt); ok && a.Tok == token.DEFINE && len(a.Lhs) == 1 && len(a.Rhs) == 1 && sub == "" && vals != "" && lctx != "" && errv != "" {
+			if c, ok := a.Rhs[0].(*ast.CallExpr); ok && ksrc(c.Fun) == ps[1]+".SubscribeWithContext" && len(c.Args) == 2 && ksrc(c.Args[0]) == ps[0] {
+				if o, ok := c.Args[1].(*ast.CallExpr); ok && ksrc(o.Fun) == "NewObserverWithContext" && len(o.Args) == 3 {
+					pn, sn, ok1 := body(o.Args[0])
+					pe, se, ok2 := body(o.Args[1])
+					pc, sc, ok3 := body(o.Args[2])
+					if ok1 && ok2 && ok3 && len(pn) == 2 && len(pe) == 2 && len(pc) == 1 &&
+						strings.Join(sn, ";") == fmt.Sprintf("%s = append(%s, %s)", vals, vals, pn[1]) &&
+						strings.Join(se, ";") == strings.Join(sorted(fmt.Sprintf("%s = %s", errv, pe[1]), fmt.Sprintf("%s = %s", lctx, pe[0])), ";") &&
+						strings.Join(sc, ";") == fmt.Sprintf("%s = %s", lctx, pc[0]) {
+						sub = ksrc(a.Lhs[0])
+						out = append(out, "sub := subscribe(ctx, observer(append value; store error and ctx; store ctx))")
+						continue
+					}
+				}
+			}
+		}
+		if sub != "" && txt == sub+".Wait()" {
+			out = append(out, "wait")
+			continue
+		}
+		if sub != "" && txt == fmt.Sprintf("return %s, %s, %s", vals, lctx, errv) {
+			out = append(out, "return values, lastCtx, err")
+			continue
+		}
+		unk(s)
+	}
+	return
+}
+
+func sorted(ss ...string) []string { sort.Strings(ss); return ss }
+
 // ---------------------------------------------------------------- output
 
 func emitKernel(repo, outDir string) {
@@ -497,6 +568,12 @@ func emitKernel(repo, outDir string) {
 	for _, w := range wrapperRows(k.funcs["observableImpl.SubscribeWithContext"]) {
 		ws = append(ws, leanStr(w))
 	}
-	fmt.Fprintf(&sb, "def subscribeWrapper : List String := [%s]\n\nend RoGen.Kernel\n", strings.Join(ws, ", "))
+	fmt.Fprintf(&sb, "def subscribeWrapper : List String := [%s]\n\n", strings.Join(ws, ", "))
+	sb.WriteString("/-- observable.go CollectWithContext: the sequence of recognised actions -/\n")
+	var cs []string
+	for _, w := range collectRows(k.funcs["CollectWithContext"]) {
+		cs = append(cs, leanStr(w))
+	}
+	fmt.Fprintf(&sb, "def collectWrapper : List String := [%s]\n\nend RoGen.Kernel\n", strings.Join(cs, ", "))
 	writeIfChanged(filepath.Join(outDir, "Kernel.lean"), sb.String())
 }
